@@ -430,6 +430,8 @@ def fmt_cases(draw):
     c["pw"] = draw(st.one_of(st.none(), st.integers(0, 30)))
     c["ph"] = draw(st.one_of(st.none(), st.integers(0, 16)))
     c["api"] = draw(st.sampled_from(["format", "draw", "draw_names"]))
+    if draw(st.booleans()):
+        c["prior_size"] = [draw(st.integers(1, 12)), draw(st.integers(1, 8))]
     if c["inner"]["kind"] == "block" and c["api"] != "format" and draw(st.booleans()):
         # an animation drawn with the same padding parameters: the final screen is the last frame, padded
         c["anim"] = draw(gen.anim_image(max_frames=3, max_w=4, max_h=4, fmts=("GIF",)))
@@ -472,6 +474,18 @@ def check_fmt(c, rec):
         bare = image._renderer(image._render_image, inn["alpha"], **sa)
     api = c["api"]
     what = f"{api} h={c['h_align']!r} w={c['pw']} v={c['v_align']!r} h={c['ph']} on {inn['kind']} {W}x{Hh} term {cols}x{rows}"
+    if c.get("prior_size") and not anim:
+        # the same instance was formatted before, at another size, with the same padding parameters
+        pwid, phgt = c["prior_size"]
+        try:
+            image.set_size(pwid, phgt)
+            pspec = ("" if c["pw"] is None else str(c["pw"])) + ("" if c["ph"] is None else "." + str(c["ph"]))
+            format(image, pspec)
+        except Exception:
+            pass
+        image.set_size(W, Hh)
+        what += f" (same instance formatted before at {pwid}x{phgt})"
+        rec.label("prior_size")
     try:
         if api == "format":
             a = inn["alpha"]
